@@ -81,7 +81,6 @@ def substituted(R1, mapping):
 
 
 def run_case(case):
-    from pyformlang.cfg import Terminal
     failures = []
     R1, R2 = ref_cfg.from_desc(case["g1"]), ref_cfg.from_desc(case["g2"])
     with guard(failures, "build"):
@@ -107,6 +106,37 @@ def run_case(case):
                     if c != (w in expected):
                         failures.append(fail(name + ".contains", "wrong:%s" % c, w))
                         break
+    for phase in ("fresh", "warmed"):
+        if phase == "warmed":
+            # the same operations on operands that have already answered queries (normal form, symbol sets cached)
+            with guard(failures, "warm_up"):
+                for g_ in (g1, g2):
+                    for w in words[:6]:
+                        g_.contains(list(w))
+                    g_.is_empty()
+                    g_.is_finite()
+                    g_.get_generating_symbols()
+        run_battery(check, phase, g1, g2, R1, R2, L1, L2, case)
+    with guard(failures, "operand_unchanged"):
+        if ref_cfg.lib_to_ref(g1).prod_set() != snap1 or ref_cfg.lib_to_ref(g2).prod_set() != snap2:
+            failures.append(fail("operand_unchanged", "changed"))
+    labels = ["vpool:" + case["g1"].get("vpool", "?"), "tpool:" + case["g1"].get("tpool", "?")]
+    if case["g2"]["start"] is None:
+        labels.append("startless_operand")
+    if not L1 or not L2:
+        labels.append("empty_operand_language")
+    if L1 == {()} or L2 == {()}:
+        labels.append("epsilon_only_language")
+    if {repr(v) for v in R1.vars} & {repr(v) for v in R2.vars}:
+        labels.append("shared_variable_names")
+    return {"failures": failures, "labels": labels, "nontrivial": bool(L1 and L2 and L1 != L2)}
+
+
+def run_battery(check0, phase, g1, g2, R1, R2, L1, L2, case):
+    from pyformlang.cfg import Terminal
+
+    def check(name, f, expected):
+        check0(name if phase == "fresh" else name + "@warmed", f, expected)
     check("union", lambda: g1.union(g2), L1 | L2)
     check("or_operator", lambda: g1 | g2, L1 | L2)
     check("union_swapped", lambda: g2.union(g1), L1 | L2)
@@ -129,19 +159,6 @@ def run_case(case):
             mapping_ref[t2] = R1
         check("substitute", lambda: g1.substitute(mapping_lib),
               substituted(R1, mapping_ref).language_upto(N))
-    with guard(failures, "operand_unchanged"):
-        if ref_cfg.lib_to_ref(g1).prod_set() != snap1 or ref_cfg.lib_to_ref(g2).prod_set() != snap2:
-            failures.append(fail("operand_unchanged", "changed"))
-    labels = ["vpool:" + case["g1"].get("vpool", "?"), "tpool:" + case["g1"].get("tpool", "?")]
-    if case["g2"]["start"] is None:
-        labels.append("startless_operand")
-    if not L1 or not L2:
-        labels.append("empty_operand_language")
-    if L1 == {()} or L2 == {()}:
-        labels.append("epsilon_only_language")
-    if {repr(v) for v in R1.vars} & {repr(v) for v in R2.vars}:
-        labels.append("shared_variable_names")
-    return {"failures": failures, "labels": labels, "nontrivial": bool(L1 and L2 and L1 != L2)}
 
 
 def health(classes, n, tier):
